@@ -3,14 +3,17 @@ package core
 import (
 	"bufio"
 	"bytes"
+	"context"
 	"encoding/json"
 	"fmt"
 	"os"
 	"os/exec"
 	"path/filepath"
 	"runtime"
+	"strconv"
 	"strings"
 	"sync"
+	"time"
 )
 
 // WorkerResult is what a race-mode worker process reports back.
@@ -35,7 +38,18 @@ type WorkerViolation struct {
 // line "WORKERJSON {...}" from its stdout.  stderr (race reports) is kept in a file.
 func RunWorker(binary, id, mode, arg string, env ...string) (*WorkerResult, string, error) {
 	bin := filepath.Join(BuildDir(), binary)
-	cmd := exec.Command(bin, id, mode, arg)
+	// a worker that does not come back (a changed tree may hang it) is killed: its own time cap plus a margin
+	limit := 20 * time.Minute
+	for _, e := range env {
+		if strings.HasPrefix(e, "VERIF_BUDGET_S=") {
+			if s, err := strconv.Atoi(strings.TrimPrefix(e, "VERIF_BUDGET_S=")); err == nil {
+				limit = time.Duration(s)*time.Second + 90*time.Second
+			}
+		}
+	}
+	ctx, cancel := context.WithTimeout(context.Background(), limit)
+	defer cancel()
+	cmd := exec.CommandContext(ctx, bin, id, mode, arg)
 	cmd.Env = append(os.Environ(), env...)
 	var out, errb bytes.Buffer
 	cmd.Stdout = &out
@@ -53,6 +67,9 @@ func RunWorker(binary, id, mode, arg string, env ...string) (*WorkerResult, stri
 			}
 			res = &r
 		}
+	}
+	if res == nil && ctx.Err() != nil {
+		return nil, errb.String(), fmt.Errorf("worker %s %s %s did not finish within %v and was killed", binary, id, mode, limit)
 	}
 	if res == nil {
 		return nil, errb.String(), fmt.Errorf("worker %s %s %s produced no result (exit: %v); stderr: %.2000s", binary, id, mode, runErr, errb.String())
